@@ -32,6 +32,23 @@ def run(ctx):
     for p in (A.Bitwise(A.Array(0, A.Alias("Bit"))), A.ByteSwapped(A.Bytes(0)), A.BitsSwapped(A.Array(0, A.Alias("Byte"))), A.BitStruct(A.Padding(0)),
               A.Struct(A.Renamed("f", A.BitStruct(A.Renamed("v", A.Computed(A.C(3))))), A.Renamed("x", A.Alias("Byte")))):
         progs.insert(0, (p, {}))
+    # a constant's size is the size of the member that carries it, not the length of the literal
+    for sub in (A.Padded(4, A.Bytes(2)), A.NullTerminated(A.GreedyBytes), A.Prefixed(A.Alias("Byte"), A.GreedyBytes), A.Aligned(4, A.Bytes(2)), A.FixedSized(4, A.NullStripped(A.GreedyBytes)),
+                A.Bytes(2), A.Padded(K, A.Bytes(2)), A.FixedSized(3, A.GreedyBytes), A.Prefixed(A.Alias("Byte"), A.Bytes(2)), A.PascalString(A.Alias("Byte"), "ascii") if False else A.Bytes(K)):
+        c = A.Const(b"MZ", sub)
+        for p in (c, A.Struct(A.Renamed("sig", c), A.Renamed("x", A.Alias("Byte"))), A.Array(2, c)):
+            progs.insert(0, (p, {"k": rng.choice([2, 3, 4])}))
+    # a keyword that happens to be called like a member of a nested scope is not that member
+    for p, kws in ((A.FocusedSeq("x", A.Renamed("k", A.Alias("Byte")), A.Renamed("x", A.Bytes(A.T("k")))), ({"k": 2}, {"k": 0})),
+                   (A.PrefixedArray(A.Alias("Byte"), A.Alias("Byte")), ({"count": 3}, {"count": 0}, {"items": 1})),
+                   (A.PrefixedArray(A.Alias("Byte"), A.Alias("Int16ub")), ({"count": 2},)),
+                   (A.Struct(A.Renamed("n", A.Alias("Byte")), A.Renamed("d", A.FocusedSeq("x", A.Renamed("x", A.Bytes(A.T("_", "n")))))), ({"n": 5}, {"n": 0})),
+                   (A.FocusedSeq("x", A.Renamed("n", A.Rebuild(A.Alias("Byte"), A.Func("len", A.T("x")))), A.Renamed("x", A.Bytes(A.T("n")))), ({"n": 5}, {"n": 1})),
+                   (A.Struct(A.Renamed("h", A.Alias("Byte")), A.Renamed("f", A.FocusedSeq("x", A.Renamed("k", A.Alias("Byte")), A.Renamed("x", A.Array(A.T("k"), A.Alias("Byte")))))), ({"k": 2},)),
+                   (A.Struct(A.Renamed("k", A.Alias("Byte")), A.Renamed("s", A.Struct(A.Renamed("x", A.Bytes(A.T("k")))))), ({"k": 2},)),
+                   (A.Sequence(A.Renamed("k", A.Alias("Byte")), A.Bytes(A.T("k"))), ({"k": 2},))):
+        for kw in kws:
+            progs.insert(0, (p, kw))
     fixed = {}
     for e in common.corpus(ctx):
         progs.insert(0, (e["prog"], e.get("kw", {})))
